@@ -8,7 +8,7 @@ from .smt import Obligation
 
 
 class State:
-    __slots__ = ('pc', 'locals', 'heap', 'log', 'guards', 'pending', 'ghost')
+    __slots__ = ('pc', 'locals', 'heap', 'log', 'guards', 'pending', 'ghost', 'ctrl')
 
     def __init__(self):
         self.pc = []
@@ -18,6 +18,7 @@ class State:
         self.guards = []
         self.pending = []      # exceptional exits registered during expression evaluation: (cond, excname)
         self.ghost = {}
+        self.ctrl = []         # control-flow decisions taken (subset of pc)
 
     def copy(self):
         s = State()
@@ -28,6 +29,7 @@ class State:
         s.guards = list(self.guards)
         s.pending = list(self.pending)
         s.ghost = dict(self.ghost)
+        s.ctrl = list(self.ctrl)
         return s
 
 
